@@ -247,6 +247,22 @@ class ExternalVariableCollector(NodeVisitor):
             self.provenance[name] = "body"
             self.assigned.add(name)
 
+    def _visit_capture_pattern(self, node, name):
+        # Names captured by the patterns of a match statement
+        if name is not None:
+            self.provenance.setdefault(name, "body")
+            self.assigned.add(name)
+        self.generic_visit(node)
+
+    def visit_MatchAs(self, node):
+        self._visit_capture_pattern(node, node.name)
+
+    def visit_MatchStar(self, node):
+        self._visit_capture_pattern(node, node.name)
+
+    def visit_MatchMapping(self, node):
+        self._visit_capture_pattern(node, node.rest)
+
     def visit_arg(self, node):
         if node.lineno in self.comments:
             self.vardoc[node.arg] = self.comments[node.lineno]
@@ -790,6 +806,38 @@ class PteraTransformer(NodeTransformer):
                 body=new_body,
             ),
             node,
+        )
+
+    def visit_match_case(self, node):
+        # The names captured by the pattern are set when the case is taken
+        new_body = []
+
+        def captures(pattern):
+            # In the order of the source
+            for sub in ast.iter_child_nodes(pattern):
+                yield from captures(sub)
+            if isinstance(pattern, (ast.MatchAs, ast.MatchStar)):
+                name = pattern.name
+            elif isinstance(pattern, ast.MatchMapping):
+                name = pattern.rest
+            else:
+                name = None
+            if name is not None:
+                yield ast.copy_location(
+                    ast.Name(id=name, ctx=ast.Store()), pattern
+                )
+
+        seen = set()
+        for target in captures(node.pattern):
+            # The alternatives of an or-pattern capture the same names
+            if target.id not in seen:
+                seen.add(target.id)
+                new_body.extend(self.generate_interactions(target))
+        new_body.extend(self.visit_body(node.body))
+        return ast.match_case(
+            pattern=node.pattern,
+            guard=node.guard and self.visit(node.guard),
+            body=new_body,
         )
 
     def visit_NamedExpr(self, node):
